@@ -115,6 +115,11 @@ func (z *ZodObject[T, R]) Parse(input any, ctx ...*core.ParseContext) (R, error)
 		if v == nil {
 			return zero, nil
 		}
+		// A pointer schema hands back the pointer the engine returned instead of wrapping
+		// the map in a new one.
+		if r, ok := any(v).(R); ok {
+			return r, nil
+		}
 		return convertToObjectConstraintType[T, R](any(*v).(T)), nil
 	case nil:
 		return zero, nil
